@@ -72,15 +72,20 @@ theorem service_some {d : Dev} {a : S} {s : Svc} (h : service ord T d a = some s
     exact ⟨tys, rfl, ty, hty, hs⟩
 
 theorem action_some {d : Dev} {a name : S} {s : Svc} (h : action ord T d a name = some s) :
-    service ord T d a = some s ∧ name ∈ s.acts := by
+    name ∈ s.acts ∧ ∃ tys, get? T a = some tys ∧ ∃ ty ∈ ord tys, findService d ty = some s := by
   unfold action at h
-  cases hs : service ord T d a with
-  | none => simp [hs] at h
-  | some s' =>
-    simp only [hs] at h
-    simp at h
-    obtain ⟨hm, rfl⟩ := h
-    exact ⟨rfl, hm⟩
+  cases hg : get? T a with
+  | none => simp [hg] at h
+  | some tys =>
+    simp only [hg] at h
+    obtain ⟨ty, hty, hs⟩ := List.exists_of_findSome?_eq_some h
+    cases hf : findService d ty with
+    | none => simp [hf] at hs
+    | some s' =>
+      simp only [hf] at hs
+      simp at hs
+      obtain ⟨hm, rfl⟩ := hs
+      exact ⟨hm, tys, rfl, ty, hty, hf⟩
 
 end
 
